@@ -288,6 +288,50 @@ def gen_env_plain(rng, etc_xdg_clear):
     return env
 
 
+def import_env(rng, env, etc_xdg_clear):
+    """The environment in force when pypyr.config was imported / the Config object was built,
+    different from the one init() runs under: the variables init() is documented to obey
+    (PYPYR_SKIP_INIT, PYPYR_CONFIG_GLOBAL, PYPYR_CONFIG_LOCAL, XDG_*) set <-> unset or changed,
+    and the constructor's own variables (PYPYR_NO_CACHE, PYPYR_ENCODING, PYPYR_CMD_ENCODING)."""
+    imp = dict(env)
+    r = rng.random()
+    if r < 0.45:
+        if env_is_true(env.get('PYPYR_SKIP_INIT')):
+            if rng.random() < 0.6:
+                imp.pop('PYPYR_SKIP_INIT')
+            else:
+                imp['PYPYR_SKIP_INIT'] = rng.choice(FALSY_ENV)
+        else:
+            imp['PYPYR_SKIP_INIT'] = rng.choice(TRUTHY_ENV)
+    elif r < 0.60:
+        if 'PYPYR_CONFIG_GLOBAL' in env:
+            imp.pop('PYPYR_CONFIG_GLOBAL')
+        else:
+            imp['PYPYR_CONFIG_GLOBAL'] = rng.choice([f'{SB}/g/global.yaml', f'{SB}/nowhere.yaml'])
+    elif r < 0.72:
+        imp['XDG_CONFIG_DIRS'] = rng.choice([f'{SB}/c2:{SB}/c1', f'{SB}/c3', f'{SB}/c1:{SB}/c2'])
+        imp['XDG_CONFIG_HOME'] = rng.choice([f'{SB}/c1', f'{SB}/elsewhere'])
+    elif r < 0.80:
+        if 'PYPYR_CONFIG_LOCAL' in env:
+            imp.pop('PYPYR_CONFIG_LOCAL')
+        else:
+            imp['PYPYR_CONFIG_LOCAL'] = 'other-local.yaml'
+    else:
+        return gen_env_plain(rng, etc_xdg_clear)
+    for var, pool in (('PYPYR_NO_CACHE', TRUTHY_ENV + FALSY_ENV), ('PYPYR_ENCODING', ['utf-8', 'ascii']),
+                      ('PYPYR_CMD_ENCODING', ['utf-8', 'cp1252'])):
+        if rng.random() < 0.2:
+            if var in imp:
+                imp.pop(var)
+            else:
+                imp[var] = rng.choice(pool)
+    return imp
+
+
+def env_is_true(s):
+    return s is not None and s.lower() in ('true', '1', '1.0')
+
+
 def user_dir(env):
     h = env.get('XDG_CONFIG_HOME', '')
     return h if h.strip() else HOME + '/.config'
@@ -430,6 +474,8 @@ def make_case(rng, subset, etc_xdg_clear, force_defect=None, repeat=False):
             'defect': defect if defect_loc else None, 'fresh': rng.random() < 0.06}
     if repeat:
         case['repeat'] = True
+    if rng.random() < 0.18:
+        case['import_env'] = import_env(rng, env, etc_xdg_clear)
     return case
 
 
